@@ -158,6 +158,29 @@ def read():
     if len(delays) != 1 or len(re.findall(r"delay\(", pdir)) != 2:
         raise TranslateError("process_direction: expected two equal delay(N)")
     c["relayDelayMs"] = int(delays.pop())
+    # which value ends up in m_previous_direction: the direction read once at the top (fixed sketch) or the volatile
+    # m_direction re-read after the delay (the ISR may have set it to STOP in between: the stop is then lost)
+    once = re.search(r"const\s+(?:auto|Direction)\s+direction\s*=\s*m_direction\s*;\s*if\s*\(\s*direction\s*!=\s*m_previous_direction\s*\)\s*\{\s*switch\s*\(\s*direction\s*\)", pdir)
+    reread = re.search(r"^\s*if\s*\(\s*m_direction\s*!=\s*m_previous_direction\s*\)\s*\{\s*switch\s*\(\s*m_direction\s*\)", pdir)
+    if once and re.search(r"m_previous_direction\s*=\s*direction\s*;", pdir) and len(re.findall(r"\bm_direction\b", pdir)) == 1:
+        c["prevDirRereadsVolatile"] = False
+    elif reread and re.search(r"m_previous_direction\s*=\s*m_direction\s*;", pdir):
+        c["prevDirRereadsVolatile"] = True
+    else:
+        raise TranslateError("process_direction: neither 'direction read once' nor 'm_previous_direction = m_direction' shape")
+    for d, run, hi, lo in (("OPEN", "OPEN", "cover_close", "cover_open"), ("CLOSE", "CLOSE", "cover_open", "cover_close")):
+        _one(
+            r"case\s+Direction::" + d + r"\s*:\s*m_running_direction\s*=\s*Direction::" + run + r"\s*;\s*digitalWrite\(\s*pins\." + hi
+            + r"\s*,\s*HIGH\s*\)\s*;\s*delay\(\s*\d+\s*\)\s*;\s*digitalWrite\(\s*pins\." + lo + r"\s*,\s*LOW\s*\)\s*;\s*m_previous_position\s*=\s*get_position\(\)\s*;"
+            r"\s*m_previous_time\s*=\s*now\s*;\s*m_do_stop_time\s*=\s*0\s*;\s*break\s*;",
+            pdir,
+            f"process_direction case {d}",
+        )
+    _one(
+        r"case\s+Direction::STOP\s*:\s*digitalWrite\(\s*pins\.cover_close\s*,\s*LOW\s*\)\s*;\s*digitalWrite\(\s*pins\.cover_open\s*,\s*LOW\s*\)\s*;\s*m_do_stop_time\s*=\s*now\s*;\s*break\s*;",
+        pdir,
+        "process_direction case STOP",
+    )
     # --- step(): end-point tests ----------------------------------------------------------------------------
     step = _body(src, r"void\s+step\s*\(\s*\)\s*\{\s*switch\s*\(\s*m_running_direction\s*\)", "Cover::step")
     m = _one(r"\+\+m_position\.position\s*;\s*if\s*\(\s*m_set_limits\s*==\s*SetLimit::NONE\s*&&\s*m_position\.position\s*(>=|>)\s*m_position\.open\s*(?:([+-])\s*(\d+))?\s*\)\s*\{\s*m_direction\s*=\s*Direction::STOP\s*;", step, "open end-point test in step()")
@@ -250,7 +273,7 @@ def render(c) -> str:
     for k in ("maxPulseMargin", "stallMinPulses", "stepOpenOffset", "stepCloseOffset", "pctMul", "pctLo", "pctHi"):
         v = c[k]
         L.append(f"def {k} : Int := {v if v >= 0 else f'({v})'}")
-    for k in ("stepOpenStrict", "stepCloseStrict"):
+    for k in ("stepOpenStrict", "stepCloseStrict", "prevDirRereadsVolatile"):
         L.append(f"def {k} : Bool := {'true' if c[k] else 'false'}")
     for k in ("emergencyText", "emergencyTerminator", "terminator"):
         L.append(f"def {k} : List Nat := {_nat_list(c[k])}  -- \"{_txt(c[k])}\"")
